@@ -69,6 +69,85 @@ def report(ctx, mod, part, n, symptom, detail, judge, extra=(), case=None):
     ctx.violation(sig, what, case or {'type': 'grid', 'n': D.enc(n_min)})
 
 
+class _Poison(object):
+    """Not a Haystack value: no writer can emit it."""
+
+
+def _containers(g):
+    """(label, put, take) for places inside grid g where a value can be slipped in and taken out again."""
+    import hszinc
+    out = []
+
+    def visit(v, label):
+        if isinstance(v, list):
+            out.append((label + '/list', lambda x, v=v: v.append(x), lambda v=v: v.pop()))
+            for x in list(v):
+                visit(x, label + '/list')
+        elif isinstance(v, hszinc.Grid):
+            if len(v) and len(v.column):
+                c = list(v.column.keys())[0]
+                row = v[0]
+                old = row.get(c, _Poison)
+                out.append((label + '/grid', lambda x, row=row, c=c: row.__setitem__(c, x),
+                            lambda row=row, c=c, old=old: row.pop(c) if old is _Poison else row.__setitem__(c, old)))
+            for row in v:
+                for x in list(row.values()):
+                    visit(x, label + '/grid')
+        elif isinstance(v, dict):
+            out.append((label + '/dict', lambda x, v=v: v.__setitem__('zzPoison', x), lambda v=v: v.pop('zzPoison')))
+            for x in list(v.values()):
+                visit(x, label + '/dict')
+    for row in g:
+        for v in list(row.values()):
+            visit(v, 'cell')
+    for v in list(g.metadata.values()):
+        visit(v, 'grid-meta')
+    if len(g) and len(g.column):
+        c = list(g.column.keys())[-1]
+        row = g[len(g) - 1]
+        old = row.get(c, _Poison)
+        out.append(('cell', lambda x: row.__setitem__(c, x), lambda: row.pop(c) if old is _Poison else row.__setitem__(c, old)))
+    return out
+
+
+def error_path(ctx, mod, n):
+    """A dump that fails half-way (something no writer can emit sits somewhere inside the grid) leaves nothing behind:
+    once the intruder is taken out again, the very same objects dump exactly as they did before."""
+    import hszinc
+    from vf import hs as _hs
+    mode = {'zinc': hszinc.MODE_ZINC, 'json': hszinc.MODE_JSON}[mod.FMT]
+    try:
+        g = _hs.to_grid(n)
+        t0 = hszinc.dump(g, mode=mode)
+    except Exception:
+        return
+    for label, put, take in _containers(g)[:6]:
+        put(_Poison())
+        try:
+            hszinc.dump(g, mode=mode)
+            failed = None
+        except Exception as e:   # noqa
+            failed = type(e).__name__
+        take()
+        ctx.case('error-path', D.enc(n), label)
+        if failed is None:
+            ctx.count('intruder emitted by the writer (not judged)')
+            continue
+        ctx.count('dumps failed half-way, then retried')
+        ctx.cls('error-path', label, failed)
+        try:
+            t1 = hszinc.dump(g, mode=mode)
+            why = None if t1 == t0 else 'text differs: %r vs %r' % (t1[:160], t0[:160])
+        except Exception as e:   # noqa
+            why = 'raises %s: %s' % (type(e).__name__, str(e)[:120])
+        if why:
+            ctx.violation({'part': 'history', 'format': mod.FMT, 'position': label, 'kind': 'grid',
+                           'symptom': 'dump-after-failed-dump:' + why.split(':')[0].replace(' ', '-'), 'features': []},
+                          'a dump failed (%s) because of a foreign object at %s; the object was removed and the same grid dumped '
+                          'again: %s' % (failed, label, why), {'type': 'grid', 'n': D.enc(n), 'error_path': True})
+            return
+
+
 def run_shard(mod, spec, ctx):
     part = spec['part']
     if part == 'scalars':
@@ -165,6 +244,25 @@ def run_shard(mod, spec, ctx):
                 ctx.sample({'grid': D.enc(n), 'text': art.get('text')})
             if not sym and len(remembered) < 150 and art.get('text') is not None:
                 remembered.append((n, art['text']))
+            if not sym and gi % 3 == 0 and art.get('text') is not None:
+                # the same grid, its ordered maps (metadata, columns, column metadata) filled in another order and brought
+                # into this order through reverse() / sort() / add_item(index=): same grid, so same text and same verdict
+                from vf import hs as _hs
+                _hs.BUILD = 'reordered'
+                try:
+                    sym2, detail2, art2 = mod.judge_grid(n)
+                finally:
+                    _hs.BUILD = None
+                ctx.count('grids also built by re-ordering their ordered maps')
+                if sym2 or art2.get('text') != art['text']:
+                    ctx.violation({'part': 'grid', 'format': mod.FMT, 'position': 'document', 'kind': 'grid',
+                                   'symptom': 'depends-on-how-the-grid-was-built:' + (sym2 or 'text-differs'), 'features': ['build=reordered']},
+                                  'grid whose metadata / columns were put in in another order and then re-ordered (reverse, sort, add_item '
+                                  'index=): %s; text %r, text of the plainly built grid %r' % (
+                                      sym2 or 'another text', (art2.get('text') or '')[:200], art['text'][:200]),
+                                  {'type': 'grid', 'n': D.enc(n), 'build': 'reordered'})
+            if not sym and gi % 4 == 1:
+                error_path(ctx, mod, n)
         # history independence: the same grids dumped again, in reverse order and after everything else this process
         # has dumped, must give exactly the same text (a cache keyed on too little shows up here)
         for n, text in reversed(remembered):
@@ -263,6 +361,21 @@ def replay(mod, case, ctx):
         if sym:
             ctx.violation({'part': 'multi', 'format': mod.FMT, 'position': 'document', 'kind': 'grids', 'symptom': sym,
                            'features': ['k=%d' % len(ns), 'single=%s' % case['single']]}, '%s: %s' % (sym, detail), case)
+    elif case.get('error_path'):
+        error_path(ctx, mod, D.dec(case['n']))
+    elif case.get('build'):
+        from vf import hs as _hs
+        n = D.dec(case['n'])
+        sym, detail, art = mod.judge_grid(n)
+        _hs.BUILD = case['build']
+        try:
+            sym2, detail2, art2 = mod.judge_grid(n)
+        finally:
+            _hs.BUILD = None
+        if sym2 or art2.get('text') != art.get('text'):
+            ctx.violation({'part': 'grid', 'format': mod.FMT, 'position': 'document', 'kind': 'grid',
+                           'symptom': 'depends-on-how-the-grid-was-built:' + (sym2 or 'text-differs'), 'features': ['build=reordered']},
+                          '%s / %r vs %r' % (sym2, (art2.get('text') or '')[:200], (art.get('text') or '')[:200]), case)
     else:
         n = D.dec(case['n'])
         sym, detail, art = mod.judge_grid(n)
